@@ -4,6 +4,7 @@ import (
 	"fmt"
 	"github.com/lugu/qiloop/meta/signature"
 	"strings"
+	"sync"
 )
 
 // Scope represents the scope of a type in which type declarations are
@@ -17,13 +18,37 @@ type Scope interface {
 type scopeImpl struct {
 	local  map[string]signature.Type
 	global map[string]Scope
+	// resolving holds the names of the types whose references are
+	// being visited. It detects types which refer to themselves.
+	resolving      map[string]bool
+	resolvingMutex sync.Mutex
+}
+
+// enter marks the type name as being visited. It returns false if
+// the type is already being visited.
+func (s *scopeImpl) enter(name string) bool {
+	s.resolvingMutex.Lock()
+	defer s.resolvingMutex.Unlock()
+	if s.resolving[name] {
+		return false
+	}
+	s.resolving[name] = true
+	return true
+}
+
+// leave marks the type name as not being visited anymore.
+func (s *scopeImpl) leave(name string) {
+	s.resolvingMutex.Lock()
+	defer s.resolvingMutex.Unlock()
+	delete(s.resolving, name)
 }
 
 // NewScope returns a new scope.
 func NewScope() Scope {
 	return &scopeImpl{
-		local:  make(map[string]signature.Type),
-		global: make(map[string]Scope),
+		local:     make(map[string]signature.Type),
+		global:    make(map[string]Scope),
+		resolving: make(map[string]bool),
 	}
 }
 func (s *scopeImpl) Add(name string, typ signature.Type) error {
